@@ -388,7 +388,7 @@ fn rlimit_every(tier: Tier, wl: Wl) -> Option<u64> {
 }
 /// encrypted saves cost ~100 ms each (3 x 100000 SHA-512 spins inside `encrypt`), so the thorough tier walks the
 /// compound file in steps (plus all boundaries) instead of byte by byte; stated in bounds and caps_hit
-const THOROUGH_CFB_STEP: u64 = 32;
+const THOROUGH_CFB_STEP: u64 = 64;
 fn rlimit_groups(tier: Tier, p: &Plan) -> Vec<(Wl, Pre, Vec<u64>)> {
     let mut g = vec![];
     for wl in WLS {
